@@ -46,6 +46,10 @@ def gen_cases(tier, seed):
                 if cand:
                     c['R0'] = [cand[r.randrange(len(cand))]]
             c['full'] = (j // 3) % 2 == 0
+            if name in odereg.NODE_LEVEL and j % 2:
+                perm = list(range(c['graph']['n']))
+                r.shuffle(perm)
+                c['nodelist_perm'] = perm       # caller's nodelist in an order unrelated to G.nodes()
             out.append(c)
     # final-size entry points (scalar output)
     for name in ATTACK:
